@@ -376,7 +376,9 @@ strings are well-formed letters, every byte string with something after the opti
 Not covered (kept in `accepts_iff_grammar`): panic / fault exits of the many-digit re-parse (C10
 `parseNumber_total`), `numberBits n = litBits (content)` for at most `u64_step` digits (C01/C05 territory),
 the entry-point validation of `parseFloatModel`, and the excluded classes below, which are *findings*:
-empty input / bare sign (`body = []`), formats with a base prefix, formats with a digit separator. -/
+empty input / bare sign (`body = []`), formats with a base prefix. Formats with a digit separator (any flags) are
+covered on separator-free input by `accepts_iff_grammar_sep_partial` in `Props/C12Sep.lean` (the former finding
+`sep-format-uncounted-8digit-block` is repaired, see `regression_sep_format_*` below). -/
 theorem accepts_iff_grammar_partial (c : Cfg) (hd : c.debug = false)
     (hfmt : c.feats.format = false ∨ SepPrefixFree c.fmt)
     (hr8 : c.feats.powerOfTwo = false → c.mantissaRadix ≤ 10)
@@ -487,17 +489,19 @@ theorem finding_prefix_leading_zeros :
 theorem finding_empty_input :
     modelAccepts cfgNoFlags {} [] = true ∧ grammarAccepts cfgNoFlags {} [] = false := by decide
 
-/-- finding (C13 root cause, visible on separator-free input): a format with a digit separator in only some
-components rejects `12345678` (8 digits, no separator byte) … -/
-theorem finding_sep_format_rejects_plain_digits :
-    modelAccepts cfgSepFracI {} [49, 50, 51, 52, 53, 54, 55, 56] = false ∧
+/-- regression (former finding `sep-format-uncounted-8digit-block`, repaired in /repo 7e8a135 + 12a2453): a format
+with a digit separator in only some components used to reject `12345678` (8 digits, no separator byte: the digits
+of the 8-digit fast loop were not counted); it is accepted now, as the grammar demands … -/
+theorem regression_sep_format_accepts_plain_digits :
+    modelAccepts cfgSepFracI {} [49, 50, 51, 52, 53, 54, 55, 56] = true ∧
     grammarAccepts cfgSepFracI {} [49, 50, 51, 52, 53, 54, 55, 56] = true := by decide
 
-/-- … and stores a one-byte fraction slice for `1.123456789` (the digits of the 8-digit fast loop are not
-counted), which is what mis-scales the value -/
-theorem finding_sep_format_loses_fraction_digits :
+/-- … and `1.123456789` keeps its nine fraction digits and the exponent `-9` (it used to store a one-byte fraction
+slice with exponent `-1`, which mis-scaled the value) -/
+theorem regression_sep_format_keeps_fraction_digits :
     (match parseFloatSyntax cfgSepIntI {} false [49, 46, 49, 50, 51, 52, 53, 54, 55, 56, 57] with
-      | .ok (.number n _) => n.fraction == some [49] && n.exponent == -1
+      | .ok (.number n _) =>
+        n.fraction == some [49, 50, 51, 52, 53, 54, 55, 56, 57] && n.exponent == -9 && n.mantissa == 1123456789
       | _ => false) = true := by decide
 
 /-- non-vacuity of `accepts_iff_grammar_partial`: a flagged format, an accepted and a rejected input -/
